@@ -33,18 +33,25 @@ class C27(Prop):
              "closed at the end, the log at any earlier time a prefix of it); the parts of all files concatenated are exactly "
              "the samples accepted by formatFMP4Segment.write, in order; every part obeys the size and duration bounds the "
              "code enforces; with one video track every file starts on a sync sample; read as calls on a file the log of "
-             "a file IS the write log of level 1, so the crash theorems apply to every file of every run. The real fMP4 "
+             "a file IS the write log of level 1, so the crash theorems apply to every file of every run. (3) The duration "
+             "rewrite at close at the granularity of Write calls: the file after any number of complete calls (+ a torn, "
+             "zero-filled appending call) is a crash image with the header of writeInit (duration 0) or the closed file, and "
+             "/list (header duration 0 -> scan the parts, else trust the header) reports the scan result resp. the true "
+             "duration truncated to a millisecond at every such point - no state with a wrong non-zero header. The real fMP4 "
              "format is driven with generated sample streams (direct calls of formatFMP4Track.write, and whole recordings "
              "through Recorder+Stream), the files are read back and compared with the model; the same runs once more in a "
              "child process under strace, so that the write(2) calls per file are observed; the real reader functions are "
              "run on every recorded segment cut at every box boundary +-8 and at sampled offsets, with and without zero tails.",
         note="FIXED FINDING (2f5314e): a late video key frame was discarded and the non-sync frames after it were written, so "
              "a segment could begin with undecodable video. KNOWN FINDING (segmenter: name-collision): with a segment duration below the lag between two tracks (needs recordSegmentDuration < 1 s) consecutive segments get the same start time and file name and truncate each other. " 
+             "FIXED FINDING (c1e6a8d): the duration rewrite at close was ~100 one-byte write(2) calls (go-mp4 marshalled the mvhd "
+             "payload byte by byte into the unbuffered file); stopped after the third byte of DurationV0 the header held a wrong "
+             "non-zero duration that /list trusts, so complete parts were not listed (C27_list_any_write_crash_pinned_refuted; "
+             "driver family CTorn replays every prefix of the observed Write calls through the real /list code). The repaired "
+             "code writes the payload with one call; C27_list_any_write_crash covers every crash point at write granularity; "
+             "what one write(2) leaves behind when the machine stops inside it is the file system's business (assumption). "
              "REFUTED for two video tracks (C27_starts_on_sync_two_video_"
-             "refuted): the switch follows the key frames of one track. Observed by strace and only tested, not modelled "
-             "byte by byte: the duration rewrite is ~100 one-byte write(2) calls (go-mp4 marshals the mvhd payload byte by "
-             "byte into the unbuffered file), so a torn rewrite is a realistic state; the theorems hold for every moov "
-             "payload, i.e. in every such state, but /list then reports the torn duration. The filesystem's own crash "
+             "refuted): the switch follows the key frames of one track. The filesystem's own crash "
              "semantics are the property's prefix+zero-fill model; the mediacommon encoders are oracles (box sizes read "
              "back from the files); timestamp sums other than timestampToDuration are on Z (no int64 wrap); I/O errors are "
              "not modelled.",
@@ -59,19 +66,27 @@ class C27(Prop):
             "video tracks (H.264 / MPEG-4 Video) and 0-2 audio tracks (Opus / AAC), GOP 1..12, 10/25/30 fps with jitter, "
             "backward steps and gaps, track offsets up to +-1.6 s, negative timestamps, NTP jitter and drift beyond the "
             "tolerance, small max part sizes (oversize samples), ungated streams; 3 (thorough 12) of these streams again in "
-            "a child under strace. Playback driver: per recorded segment closed-duration, first-video-sample and "
+            "a child under strace; the real writeDuration once more on the pre-close state of every closed segment through a "
+            "logging ReadWriteSeeker (its Write calls go into the manifest). Playback driver: every closed segment in the "
+            "state after k = 0..n of these Write calls handed to the real parseAndConcatenate of /list (CTorn); per recorded segment closed-duration, first-video-sample and "
             "concatenation checks; crash points = every part start, +8, end of moof, end of mdat header, each -8..+8, with "
             "0 and 64 zero bytes, the complete file with 0 and 4096 zero bytes, then random offsets with random zero "
             "tails; non-trivial = all cases; distinct = distinct descriptions")
     trusted_base = ["Coq 8.16.1 kernel + VM",
-                    "in-package Go drivers zz_verif_c27_rec_test.go, zz_verif_c27_seg_test.go, zz_verif_c27_strace_test.go "
-                    "(package recorder) and zz_verif_c27_test.go (package playback)",
+                    "in-package Go drivers zz_verif_c27_rec_test.go, zz_verif_c27_seg_test.go, zz_verif_c27_strace_test.go, "
+                    "zz_verif_c27_torn_test.go (package recorder) and zz_verif_c27_test.go, zz_verif_c27_torn_test.go (package playback)",
+                    "oracle: go-mp4 decoding of a version-0 mvhd box: DurationV0 = big-endian 32 bits at payload offset 16 "
+                    "(field_at; the driver reads the field from the bytes and the real reader's answer is compared with it)",
                     "Model/C28_SegRead.v moof_loop as the meaning of the reader's walk (tied to the code by C28's correspondence run)",
                     "oracle: mediacommon fmp4.Init/Parts Marshal+Unmarshal (layout, per-part durations, samples of the recorded files)",
                     "strace 6.x output format (openat/read/write/lseek/close lines, unfinished/resumed pairs)"]
     assumptions = ["crash model of the property: file = prefix of the concatenated writes + optional zero bytes",
-                   "writeInit and writePart issue one write(2) each (observed by strace in every run; if ptrace is not "
-                   "permitted the run says so in the driver summary and the assumption is read from the source)",
+                   "writeInit, writePart and (since fix c1e6a8d) the duration rewrite issue one write(2) each (observed by strace in "
+                   "every run and asserted by spec_fail; if ptrace is not permitted the run says so in the driver summary; the "
+                   "rewrite is then still observed as Write calls on the io.ReadWriteSeeker)",
+                   "a single write(2) that overwrites bytes in place is, when the machine stops, either not done or done: tearing "
+                   "INSIDE one write(2) (the 100-byte mvhd payload lies within one sector-aligned block only by luck) is the file "
+                   "system's business and not modelled",
                    "boxes are shorter than 2^32 bytes", "timestamps far from 2^63; no I/O errors"]
 
     def run_drivers(self, ctx, n, seed, replay=None):
